@@ -15,11 +15,16 @@ import itertools
 
 import numpy as np
 
+from pwlib.share import shcopy
+
 from pwlib.engine import Case
 from pwlib.proto import Line
 
 ID = "C09"
 TARGETS = ["PW.Props.C09"]
+# history pairs (pwlib/share.py): arrays are pooled, Polyline objects are not -- this property is about which results are
+# the same object as the receiver, so the adapter must build distinct objects for distinct handles
+SHARE_VALUE_CLASSES = ()
 RULE = ("random programs of Polyline operations (quick: 1200 programs of <= 15 ops, thorough: 10000 of <= 25 ops): 1-3 "
         "constructors (0..12 integer-lattice vertices drawn with repeats, open and closed) followed by flipped, flipped_if, "
         "rolled (index in -3n-2..3n+2, with/without edge mapping), sliced_at_indices (both orders, wrap), sectioned, join, "
@@ -252,7 +257,7 @@ def run_impl(ops):
         res = []
         try:
             if name == "new":
-                a = np.array(op[2], dtype=np.float64).reshape(-1, 3)
+                a = np.array(np.reshape(op[2], (-1, 3)), dtype=np.float64).copy()  # private copy (never pooled): overwritten below
                 p = Polyline(a, is_closed=op[1])
                 res = [freshness(p.v, [a])]
                 a[...] = 77.0  # the constructor's argument is changed afterwards: the polyline must not follow
@@ -293,7 +298,7 @@ def run_impl(ops):
                 table.append(p)
             elif name == "insert":
                 r = table[op[1]]
-                pts = np.array(op[3], dtype=np.float64).reshape(-1, 3)
+                pts = np.array(np.reshape(op[3], (-1, 3)), dtype=np.float64)
                 idx = np.array(op[4], dtype=np.int64)
                 if op[2]:
                     p, orig, ins = r.with_insertions(pts, idx, ret_new_indices=True)
@@ -350,7 +355,7 @@ def program_line(ops):
         name = op[0]
         ln.tok(name)
         if name == "new":
-            ln.b(op[1]).vecs(np.array(op[2], dtype=np.float64).reshape(-1, 3))
+            ln.b(op[1]).vecs(np.array(np.reshape(op[2], (-1, 3)), dtype=np.float64))
         elif name == "flipped":
             ln.i(op[1])
         elif name == "flipped_if":
@@ -364,7 +369,7 @@ def program_line(ops):
         elif name == "join":
             ln.b(op[1]).ints(op[2])
         elif name == "insert":
-            ln.i(op[1]).b(op[2]).vecs(np.array(op[3], dtype=np.float64).reshape(-1, 3)).ints(op[4])
+            ln.i(op[1]).b(op[2]).vecs(np.array(np.reshape(op[3], (-1, 3)), dtype=np.float64)).ints(op[4])
         elif name == "index_of":
             ln.i(op[1]).vec(op[2]).f(ATOL_DEFAULT if op[3] is None else op[3])
         elif name in ("aligned", "apex"):
@@ -675,6 +680,21 @@ def gen_program(rng, max_ops):
     return ops
 
 
+def shift_program(ops, off):
+    mv = lambda p: [c + o for c, o in zip(p, off)]
+    out = []
+    for op in ops:
+        op = list(op)
+        if op[0] == "new":
+            op[2] = [mv(p) for p in op[2]]
+        elif op[0] == "insert":
+            op[3] = [mv(p) for p in op[3]]
+        elif op[0] == "index_of":
+            op[2] = mv(op[2])
+        out.append(op)
+    return out
+
+
 def exhaustive_insertions():
     for n in range(0, 5):
         old = [[j + 1, 0, 0] for j in range(n)]
@@ -694,5 +714,14 @@ def gen(rng, tier):
         nprog, max_ops = 1200, 15
     else:
         nprog, max_ops = 10000, 25
-    for _ in range(nprog):
-        yield {"op": "program", "family": "random", "ops": gen_program(rng, max_ops)}
+    for i in range(nprog):
+        ops = gen_program(rng, max_ops)
+        if i % 5 == 4:
+            # the same program far from the origin: every point moved by the same large (exactly representable) offset, so
+            # vertices that differ by 1 differ by 1e-6 of their size -- equality of points is still exact equality
+            off = [rng.choice([0, 1, -1, 6]) * 2 ** 20 for _ in range(3)]
+            if not any(off):
+                off[rng.randrange(3)] = 2 ** 20
+            yield {"op": "program", "family": "random-far", "ops": shift_program(ops, off)}
+        else:
+            yield {"op": "program", "family": "random", "ops": ops}
